@@ -39,7 +39,7 @@ class C01(Check):
         "Lean 4.33 kernel; axioms ⊆ {propext, Classical.choice, Quot.sound}",
         "Model/Algebra.lean + generated Gen/Iface.lean, Model/Elim.lean, Model/Poly.lean tied to the code by this correspondence run",
         "HiGHS / sympy.solve are oracles (certificate-checked exact simplex; exact Gauss-Jordan)",
-        "tactics 1, 3: modelled and compared, soundness judged per run (no theorem)",
+        "all six tactics are modelled and proved sound (C04.driver_tactics_sound); what sympy.solve returns for a singular system is not modelled (the model abstains there: oracle-stuck, counted)",
     ]
     assumptions = ["floats denote exact rationals; numeric reading of the property (box 1000, 1e-4 relative, 1e-7 slack on negative hypotheses)"]
     min_branches = {"ok": 150, "IncompatibleArgsError": 20, "connected": 150, "w:feedback": 10, "w:cascade-rev": 10}
